@@ -375,7 +375,11 @@ impl<C: CrcCalculator> Encapsulator<C> {
             }
 
             pkt_type = PktType::FirstFragPkt;
-            pdu_len_encapsulated = buffer_len - min_header_len;
+            // the payload is limited by the buffer and by the maximum GSE length
+            pdu_len_encapsulated = std::cmp::min(
+                buffer_len - min_header_len,
+                GSE_LEN_MAX - (FRAG_ID_LEN + TOTAL_LENGTH_LEN + PROTOCOL_LEN + label_len),
+            );
             gse_len =
                 (FRAG_ID_LEN + TOTAL_LENGTH_LEN + PROTOCOL_LEN + label_len + pdu_len_encapsulated)
                     as u16;
@@ -882,7 +886,11 @@ pub fn encap_preview(
         }
 
         pkt_type = PktType::FirstFragPkt;
-        pdu_len_encapsulated = buffer_len - min_header_len;
+        // the payload is limited by the buffer and by the maximum GSE length
+        pdu_len_encapsulated = std::cmp::min(
+            buffer_len - min_header_len,
+            GSE_LEN_MAX - (FRAG_ID_LEN + TOTAL_LENGTH_LEN + PROTOCOL_LEN + label_len),
+        );
         gse_len = (FRAG_ID_LEN + TOTAL_LENGTH_LEN + PROTOCOL_LEN + label_len + pdu_len_encapsulated)
             as u16;
         pkt_len = gse_len + (FIXED_HEADER_LEN) as u16;
